@@ -49,6 +49,7 @@ func unionRules(c *Ctx) {
 	c.floor(R, 9, "six collections for Union, three for Add")
 	normaliserRule(c, "sbom.(*NodeList).Union", false)
 	normaliserRule(c, "sbom.(*NodeList).Add", true)
+	lookupCriterionRule(c, "sbom.(*NodeList).GetEdgeByType")
 
 	const RP = "merge-callee"
 	c.rule(RP, "Union merges an existing node with Update, Add with Augment, and in both the argument of the merge call derives from the argument list's node, the receiver of the call from the result/receiver side")
